@@ -116,6 +116,21 @@ impl Acc {
             self.machinery.push(msg);
         }
     }
+    /// take over only the numeric margins of a scratch accumulator
+    pub fn merge_worst(&mut self, o: Acc) {
+        for (k, v) in o.worst {
+            match self.worst.get_mut(k) {
+                Some(e) => {
+                    if v.0 > e.0 {
+                        *e = v;
+                    }
+                }
+                None => {
+                    self.worst.insert(k, v);
+                }
+            }
+        }
+    }
     pub fn merge(&mut self, o: Acc) {
         self.evals += o.evals;
         self.nontrivial += o.nontrivial;
